@@ -88,7 +88,6 @@ pgt_s390x(addrxlat_step_t *step)
 		"pgd",
 		"rg1",		/* Invented; does not exist in the wild. */
 	};
-	const addrxlat_paging_form_t *pf = &step->meth->param.pgt.pf;
 	addrxlat_pte_t pte;
 	addrxlat_status status;
 
@@ -128,7 +127,7 @@ pgt_s390x(addrxlat_step_t *step)
 
 	if (step->remain >= 3) {
 		unsigned pgidx = step->idx[step->remain - 1] >>
-			(pf->fieldsz[step->remain - 1] - pf->fieldsz[0]);
+			(REGTBL_BITS - 2);
 		if (pgidx < RSTE_TF(pte) || pgidx > RSTE_TL(pte))
 			return !step->ctx->noerr.notpresent
 				? set_error(step->ctx, ADDRXLAT_ERR_NOTPRESENT,
